@@ -781,6 +781,7 @@ def rule_G7(prog, fixture=False):
                            "satisfies 0 <= e < size for every value the dominating checks and loop bounds admit (Fourier-Motzkin over "
                            "the rationals); a failed proof is reported only with a concrete small instance that passes every check")
     n_sites = 0
+    n_ptr_sites = 0
     for f in sorted(prog.functions.values(), key=lambda f: (f.file, f.line, f.name)):
         if f.get("implicit") or f.file.endswith("coverage.cc") or f.get("lambda"):
             continue
@@ -793,12 +794,46 @@ def rule_G7(prog, fixture=False):
                 cls = (n.callee or {}).get("cls", "")
                 if ("base_array<" in cls or "std::vector<" in cls) and n.c[2].strip().tc in ("int", "bool", "enum"):
                     subs.append((n, n.c[1], n.c[2]))
-        if not subs:
+        ptr_sites = []
+        for n in f.walk():
+            if any(a.k == "LambdaExpr" for a in n.ancestors()):
+                continue
+            if (n.k == "ArraySubscriptExpr" and len(n.c) == 2 and n.c[0].strip_all().k == "DeclRefExpr" and n.c[0].strip_all().tc == "ptr") \
+                    or (n.k == "UnaryOperator" and n.op == "*" and n.c and n.c[0].strip().tc == "ptr"):
+                ptr_sites.append(n)
+        if not subs and not ptr_sites:
             continue
         f.blocks
         ctx = Ctx(prog, f)
         size_cache = {}
         idx_no = {}
+        # raw pointers into a container (const T* px = x.data() + off; ... px[k]; px += stride): no proof is attempted, but the
+        # same concrete refutation as for non-affine indices, with the pointer's offset reconstructed from its initialiser and
+        # the counted loops that advance it
+        pno = 0
+        for site in ptr_sites:
+            pctx = Ctx(prog, f)
+            pm = _pointer_model(pctx, f, site)
+            if pm is None:
+                continue
+            key = pctx.container_key(pm["cont"])
+            pno += 1
+            n_ptr_sites += 1
+            okey = "G7:%s:*%s[%d]" % (fkey(f), key[2], pno)
+            where = "%s:%d" % (rel, site.line)
+            what = "%s (pointer into %s) in %s" % (site.text()[:50], key[2], f.short)
+            props = ["C05"] + (["C02"] if (C02_FILES.search(rel) or (fixture and "irfft" in f.name.lower())) else [])
+            extra = {"props": props}
+            wit = _refute_concretely(prog, f, pctx, site, pm["cont"], pm["idx"], size_cache, ptr=pm)
+            if wit is not None and _members_constructible(prog, f, pctx, wit[0]):
+                okp, how = _params_attainable(prog, f, pctx, wit[0], site)
+                if okp and not _opaque_rejecting_call(prog, f, site, set(wit[0]), pctx, wit[0]):
+                    res.add(okey, VIOLATED, where, what,
+                            "for %s every live check and loop bound at this point holds, and the pointer designates element %s of a "
+                            "container of size %s%s" % (", ".join("%s = %s" % (_pretty(a), v) for a, v in sorted(wit[0].items()) if not a.startswith("(")),
+                                                      wit[1], wit[2], how), func=f.name, extra=extra)
+                    continue
+            res.add(okey, UNMODELLED, where, what, "access through a raw pointer: no proof attempted, no small refuting instance", func=f.name, extra=extra)
         for (node, base, idx) in subs:
             key = ctx.container_key(base)
             if key is None:
@@ -824,7 +859,7 @@ def rule_G7(prog, fixture=False):
                 if wit is not None and _members_constructible(prog, f, ctx, wit[0]):
                     okp, how = _params_attainable(prog, f, ctx, wit[0], node)
                     rel_atoms = set(wit[0])
-                    if okp and not _opaque_rejecting_call(prog, f, node, rel_atoms):
+                    if okp and not _opaque_rejecting_call(prog, f, node, rel_atoms, ctx, wit[0]):
                         res.add(okey, VIOLATED, where, what,
                                 "for %s every live check and loop bound at this point holds, and the index %s = %s is outside the "
                                 "container (size %s)%s" % (", ".join("%s = %s" % (_pretty(a), v) for a, v in sorted(wit[0].items()) if not a.startswith("(")),
@@ -849,7 +884,7 @@ def rule_G7(prog, fixture=False):
                     wit2 = _refute_concretely(prog, f, ctx2, node, base, idx, size_cache)
                     if wit2 is not None and _members_constructible(prog, f, ctx2, wit2[0]):
                         okp, how = _params_attainable(prog, f, ctx2, wit2[0], node)
-                        if okp and not _opaque_rejecting_call(prog, f, node, set(wit2[0])):
+                        if okp and not _opaque_rejecting_call(prog, f, node, set(wit2[0]), ctx2, wit2[0]):
                             res.add(okey, VIOLATED, where, what,
                                     "for %s every live check and loop condition at this point holds, and the index %s = %s is outside "
                                     "the container (size %s)%s" % (", ".join("%s = %s" % (_pretty(a), v) for a, v in sorted(wit2[0].items()) if not a.startswith("(")),
@@ -909,7 +944,7 @@ def rule_G7(prog, fixture=False):
                 if not okp:
                     wit = None
                     incomplete.append("the failing instance needs argument values that no public entry point is known to pass down")
-            if wit is not None and _opaque_rejecting_call(prog, f, node, relevant):
+            if wit is not None and _opaque_rejecting_call(prog, f, node, relevant, ctx, wit[0]):
                 wit = None
                 incomplete.append("a call that may reject receives one of the quantities before the subscript")
             if wit is not None:
@@ -926,7 +961,7 @@ def rule_G7(prog, fixture=False):
                     wit2 = _refute_concretely(prog, f, ctx2, node, base, idx, size_cache)
                     if wit2 is not None and _members_constructible(prog, f, ctx2, wit2[0]):
                         okp, how = _params_attainable(prog, f, ctx2, wit2[0], node)
-                        if okp and not _opaque_rejecting_call(prog, f, node, set(wit2[0])):
+                        if okp and not _opaque_rejecting_call(prog, f, node, set(wit2[0]), ctx2, wit2[0]):
                             res.add(okey, VIOLATED, where, what,
                                     "for %s every live check and loop condition at this point holds, and the index %s = %s is outside "
                                     "the container (size %s)%s" % (", ".join("%s = %s" % (_pretty(a), v) for a, v in sorted(wit2[0].items()) if not a.startswith("(")),
@@ -937,6 +972,7 @@ def rule_G7(prog, fixture=False):
                     why += "; not refuted either: %s" % "; ".join(incomplete[:2])
                 res.add(okey, UNMODELLED, where, what, why, func=f.name, extra=extra)
     res.stats["affine_subscripts"] = n_sites
+    res.stats["pointer_accesses_modelled"] = n_ptr_sites
     if not n_sites and not fixture:
         res.broken.append("anchor vanished: no affine subscript of a sized container found")
     return res
@@ -1143,9 +1179,50 @@ def _pretty(a):
     return a.replace("sz:", "size of ").replace("p:", "").replace("l:", "").replace("i:", "").replace("this.", "")
 
 
-def _opaque_rejecting_call(prog, f, node, relevant):
+def _callee_checks_pass(prog, cctx, call, env):
+    """every live throwing check of the callee, evaluated on the instance (integer arguments by value, container arguments by
+    their size), comes out on its surviving side - and the callee calls nothing that may reject in turn"""
+    g = prog.functions.get((call.callee or {}).get("usr"))
+    if g is None or g.body() is None:
+        return False
+    args = call.call_args()
+    if len(args) != len(g.params):
+        return False
+    genv = {}
+    for prm, a in zip(g.params, args):
+        t = prm.get("t", "")
+        if prm.get("tc") in ("int", "bool", "enum") and not prm.get("ref") and not prm.get("ptr"):
+            v = _eval_cond(cctx, a, env)
+            if v is None:
+                return False
+            genv["p:%s" % prm["n"]] = v
+        elif "base_array<" in t or "std::vector<" in t:
+            sa = cctx.container_atom(a)
+            if sa is None or sa not in env:
+                return False
+            genv["sz:%s#%s" % (prm["n"], prm["id"])] = env[sa]
+    for c in g.walk():
+        if c.is_call() and c.callee and c.callee.get("repo") and c.k not in ("CXXConstructExpr", "CXXTemporaryObjectExpr"):
+            h = prog.functions.get(c.callee.get("usr"))
+            nm = (c.callee.get("qn") or "").rsplit("::", 1)[-1]
+            if nm in ACCESSORS or nm.startswith("operator") or c.callee.get("noexcept"):
+                continue
+            if h is None or h.throw_blocks():
+                return False
+    g.blocks
+    gctx = Ctx(prog, g)
+    for fact in g.facts_at_block(g.exit, normal_exit=True):
+        if fact.belief:
+            continue
+        r = _eval_cond(gctx, fact.cond, genv)
+        if r is None or bool(r) != bool(fact.pol):
+            return False
+    return True
+
+
+def _opaque_rejecting_call(prog, f, node, relevant, ctx=None, env=None):
     """a call before the subscript that may reject and receives one of the quantities involved: its checks are not part of the
-    constraint system, so a witness is not trusted"""
+    constraint system, so a witness is not trusted - unless all of the callee's checks can be evaluated on the instance and pass"""
     names = set()
     for a in relevant:
         m = re.match(r"(?:p:|l:|i:|sz:|this\.)([A-Za-z_]\w*)", a)
@@ -1165,6 +1242,8 @@ def _opaque_rejecting_call(prog, f, node, relevant):
         if g is not None and not g.throw_blocks():
             continue
         if any(_mentions(a, names) for a in c.call_args()):
+            if ctx is not None and env is not None and _callee_checks_pass(prog, ctx, c, env):
+                continue
             return True
     return False
 
@@ -1210,6 +1289,16 @@ def _eval_cond(ctx, n, env, depth=0):
                 "==": int(a == b), "!=": int(a != b), "&": int(a) & int(b), "|": int(a) | int(b)}.get(op)
     if x.k in ("CXXFunctionalCastExpr", "CXXStaticCastExpr", "CStyleCastExpr", "ParenExpr") and x.c:
         return _eval_cond(ctx, x.c[0], env, depth)
+    if x.k == "CallExpr" and x.callee and x.callee.get("qn") in ("dsplib::ispow2", "dsplib::isprime") and len(x.call_args()) == 1:
+        # the two number predicates by their definitions (the same reading the call-chain prover uses; rule A2 grounds the part
+        # about non-positive arguments in the bodies, exactness on positive arguments is C15's undecided part)
+        v = _eval_cond(ctx, x.call_args()[0], env, depth)
+        if v is None:
+            return None
+        v = int(v)
+        if x.callee.get("qn") == "dsplib::ispow2":
+            return int(v >= 1 and (v & (v - 1)) == 0)
+        return int(v >= 2 and all(v % d for d in range(2, int(v ** 0.5) + 1)))
     return None
 
 
@@ -1314,9 +1403,28 @@ def _loop_shape(fs):
     if len(vds) != 1 or not vds[0].c or vds[0].decl.get("k") != "local":
         return None
     vid, vname = vds[0].decl["id"], vds[0].decl["n"]
-    i0 = inc.strip_all()
-    if not (i0.k == "UnaryOperator" and i0.op == "++" and i0.c and i0.c[0].strip_all().k == "DeclRefExpr" and i0.c[0].strip_all().decl.get("id") == vid):
+    # `++i`, or `++i, px += stride`: further comma parts may advance other things (a pointer), not the variable itself
+    parts, stack = [], [inc]
+    while stack:
+        e = stack.pop().strip_all()
+        if e.k == "BinaryOperator" and e.op == "," and len(e.c) == 2:
+            stack += [e.c[1], e.c[0]]
+        else:
+            parts.append(e)
+
+    def is_var(e):
+        e = e.strip_all()
+        return e.k == "DeclRefExpr" and e.decl and e.decl.get("id") == vid
+    own = [e for e in parts if e.k == "UnaryOperator" and e.op == "++" and e.c and is_var(e.c[0])]
+    if len(own) != 1:
         return None
+    for e in parts:
+        if e is own[0]:
+            continue
+        if e.k in ("UnaryOperator", "BinaryOperator", "CompoundAssignOperator") and e.c and is_var(e.c[0]):
+            return None
+        if e.k not in ("UnaryOperator", "CompoundAssignOperator"):
+            return None
     for x in (body.walk() if body is not None else []):
         if x.k in ("BinaryOperator", "CompoundAssignOperator", "UnaryOperator") and x.op and (x.op.endswith("=") or x.op in ("++", "--")) \
                 and x.op not in ("==", "!=", "<=", ">=") and x.c:
@@ -1413,7 +1521,155 @@ def _free_atoms(ctx, nodes):
     return (None if bad else out)
 
 
-def _refute_concretely(prog, f, ctx, node, base, idx, size_cache):
+def _all_loops(node):
+    """enclosing for-loops whose body contains the node, innermost first (same notion as _enclosing_loops)"""
+    return _enclosing_loops(node)
+
+
+def _stmt_in_body(loop, node):
+    """the direct child statement of the loop's body that contains the node, and its position; (None, None) when the node is not
+    inside the body or the body is not a compound statement"""
+    body = loop.role("body")
+    if body is None:
+        return (None, None)
+    if body.k != "CompoundStmt":
+        return (body, 0) if any(a.id == body.id for a in [node] + list(node.ancestors())) else (None, None)
+    chain = [node] + list(node.ancestors())
+    for i, st in enumerate(body.c):
+        if any(a.id == st.id for a in chain):
+            return (st, i)
+    return (None, None)
+
+
+def _pointer_model(ctx, f, site):
+    """site: p[e], *p or *(p + e) with p a local pointer whose single initialiser is X.data() or X.data() + E for a container X
+    with a known identity, and whose only other writes are `p += s`, `p -= s`, `++p`, `p++` (`--`) standing unconditionally in a
+    counted for-loop around the site (its increment, or a top-level statement of its body).
+    -> {"cont": X, "off": E or None, "idx": e or None, "updates": [...]} or None"""
+    n = site
+    idx = None
+    if n.k == "ArraySubscriptExpr" and len(n.c) == 2:
+        b, idx = n.c[0].strip_all(), n.c[1]
+    elif n.k == "UnaryOperator" and n.op == "*" and n.c:
+        b = n.c[0].strip_all()
+        if b.k == "BinaryOperator" and b.op == "+" and len(b.c) == 2:
+            l, r = b.c[0].strip_all(), b.c[1]
+            if l.tc == "ptr":
+                b, idx = l, r
+            else:
+                return None
+    else:
+        return None
+    if not (b.k == "DeclRefExpr" and b.decl and b.decl.get("k") == "local" and b.tc == "ptr"):
+        return None
+    if idx is not None and idx.strip().tc not in ("int", "bool", "enum"):
+        return None
+    pid = b.decl["id"]
+    decls = [v for v in f.walk() if v.k == "VarDecl" and v.decl and v.decl.get("id") == pid]
+    if len(decls) != 1 or not decls[0].c:
+        return None
+    init = decls[0].c[0].strip_all()
+    off = None
+    if init.k == "BinaryOperator" and init.op == "+" and len(init.c) == 2 and init.c[0].strip_all().tc == "ptr":
+        init, off = init.c[0].strip_all(), init.c[1]
+        if off.strip().tc not in ("int", "bool", "enum"):
+            return None
+    if not (init.k == "CXXMemberCallExpr" and (init.callee or {}).get("qn", "").rsplit("::", 1)[-1] == "data" and not init.call_args()):
+        return None
+    cont = init.call_object()
+    if cont is None or ctx.container_key(cont) is None:
+        return None
+    site_loops = _all_loops(site)
+    decl_loops = {l.id for l in _all_loops(decls[0])}
+    updates = []
+    for x in f.walk():
+        tgt = None
+        if x.k == "UnaryOperator" and x.op in ("++", "--", "&") and x.c:
+            tgt = x.c[0].strip_all()
+            sign, step = (1 if x.op == "++" else -1), None
+            if x.op == "&" and tgt.k == "DeclRefExpr" and tgt.decl and tgt.decl.get("id") == pid:
+                return None
+        elif x.k in ("BinaryOperator", "CompoundAssignOperator") and x.op and x.op.endswith("=") and x.op not in ("==", "!=", "<=", ">=") and x.c:
+            tgt = x.c[0].strip_all()
+            if tgt.k == "DeclRefExpr" and tgt.decl and tgt.decl.get("id") == pid:
+                if x.op not in ("+=", "-="):
+                    return None
+                sign, step = (1 if x.op == "+=" else -1), x.c[1]
+        if tgt is None or not (tgt.k == "DeclRefExpr" and tgt.decl and tgt.decl.get("id") == pid) or x.k == "UnaryOperator" and x.op == "&":
+            continue
+        # the loop the update belongs to
+        lp = None
+        for a in x.ancestors():
+            if a.k in ("WhileStmt", "DoStmt", "CXXForRangeStmt", "LambdaExpr"):
+                return None
+            if a.k == "ForStmt":
+                lp = a
+                break
+        if lp is None or lp.id not in {l.id for l in site_loops}:
+            return None                    # advanced outside the loops around the site: its value there is not a closed form
+        inc = lp.role("inc")
+        if inc is not None and any(a.id == inc.id for a in [x] + list(x.ancestors())):
+            kind, before = "inc", False
+        else:
+            st, pos = _stmt_in_body(lp, x)
+            body = lp.role("body")
+            top = st is not None and (st.id == x.id or (st.k in ("ExprWithCleanups",) and st.c and st.c[0].id == x.id))
+            if not top or (body is not None and body.k != "CompoundStmt"):
+                return None                # conditional or nested update
+            sst, spos = _stmt_in_body(lp, site)
+            if sst is None:
+                return None
+            kind, before = "body", pos < spos
+        chain = []
+        started = False
+        for l in site_loops:               # innermost first
+            if l.id == lp.id:
+                started = True
+            if started and l.id not in decl_loops:
+                chain.append(l)
+        if not chain:
+            return None
+        updates.append({"sign": sign, "step": step, "chain": chain, "before": before, "node": x})
+    return {"cont": cont, "off": off, "idx": idx, "updates": updates, "decl": decls[0]}
+
+
+def _pointer_offset(ctx, ptr, env):
+    """element offset of the pointer from the start of its container at the site, for the loop variable values in env"""
+    off = 0
+    if ptr["off"] is not None:
+        off = _eval_cond(ctx, ptr["off"], env)
+        if off is None:
+            return None
+    for u in ptr["updates"]:
+        step = 1
+        if u["step"] is not None:
+            if any(x.k == "DeclRefExpr" and x.decl and x.decl.get("id") in ctx.loopvars for x in u["step"].walk()):
+                return None
+            step = _eval_cond(ctx, u["step"], env)
+            if step is None:
+                return None
+        done, mult = 0, 1
+        for j, lp in enumerate(u["chain"]):
+            vid, vname, init, op, bound = _loop_shape(lp)
+            outer_ids = {_loop_shape(m)[0] for m in u["chain"][j + 1:]}
+            if any(x.k == "DeclRefExpr" and x.decl and x.decl.get("id") in outer_ids for e in (init, bound) for x in e.walk()):
+                return None                # trip count varies with an outer loop: no product formula
+            lo, hi = _eval_cond(ctx, init, env), _eval_cond(ctx, bound, env)
+            cur = env.get(ctx.loopvars[vid][0]) if vid in ctx.loopvars else None
+            if lo is None or hi is None or cur is None:
+                return None
+            if op == "<":
+                hi -= 1
+            trip = max(0, hi - lo + 1)
+            done += (cur - lo) * mult
+            mult *= trip
+        if u["before"]:
+            done += 1
+        off += u["sign"] * step * done
+    return off
+
+
+def _refute_concretely(prog, f, ctx, node, base, idx, size_cache, ptr=None):
     """a small instance (values 0..6 of at most four free quantities, loop variables inside their evaluated bounds) under which
     every dominating live fact evaluates to its required outcome and the index leaves [0, size).  -> (env, index, size) or None"""
     key = ctx.container_key(base)
@@ -1437,7 +1693,13 @@ def _refute_concretely(prog, f, ctx, node, base, idx, size_cache):
         loops.append(sh)
         ctx.loopvars[sh[0]] = ("i:%s#%d" % (sh[1], sh[0]), None, None)
     facts = [fa for fa in f.facts_at(node) if not fa.belief]
-    exprs = [idx] + [fa.cond for fa in facts]
+    exprs = ([idx] if idx is not None else []) + [fa.cond for fa in facts]
+    if ptr is not None:
+        exprs += [x for x in [ptr["off"]] + [u["step"] for u in ptr["updates"]] if x is not None]
+        for u in ptr["updates"]:
+            for l in u["chain"]:
+                if _loop_shape(l) is None:
+                    return None            # the pointer is advanced by a loop that is not a plain counted loop
     size_node = None
     for sh in loops:
         if isinstance(sh, dict):
@@ -1518,9 +1780,14 @@ def _refute_concretely(prog, f, ctx, node, base, idx, size_cache):
                         return None          # not evaluable on this instance (division by zero, call result): no verdict from it
                     if bool(r) != bool(fa.pol):
                         return None
-                iv = _eval_cond(ctx, idx, env)
+                iv = _eval_cond(ctx, idx, env) if idx is not None else 0
                 if iv is None:
                     return None
+                if ptr is not None:
+                    po = _pointer_offset(ctx, ptr, env)
+                    if po is None:
+                        return None
+                    iv += po
                 if iv < 0 or iv >= size:
                     return (dict(env), iv, size)
                 return None
@@ -1617,7 +1884,7 @@ def nonzero_verdict(prog, f, node, divisor, size_cache=None):
     okp, how = _params_attainable(prog, f, ctx, wit[0], node)
     if not okp:
         return ("unk", "not proved; the failing instance needs argument values no public entry point is known to pass down")
-    if _opaque_rejecting_call(prog, f, node, relevant):
+    if _opaque_rejecting_call(prog, f, node, relevant, ctx, wit[0]):
         return ("unk", "not proved; a call that may reject receives one of the quantities first")
     return ("bad", "for %s every live check at this point holds and the divisor %s is 0%s" % (
         ", ".join("%s = %s" % (_pretty(a), v) for a, v in sorted(wit[0].items()) if not a.startswith("(")), divisor.text()[:40], how))
